@@ -24,7 +24,7 @@ RULE = ('statement lists len<=N over the menu x layouts (base; every single layo
 ASSUMPTIONS = ['statement and layout menus as in coverage', 'in-memory file for the include statement']
 WITNESSES = ['block_form', 'comment_after_block_header', 'blank_inside_block', 'continuation', 'no_trailing_newline',
              'indented_flat', 'block_then_flat', 'block_then_block', 'import_forms', 'macro_spellings',
-             'malformed_rejected', 'tab_indent', 'layouts_same_config']
+             'malformed_rejected', 'tab_indent', 'layouts_same_config', 'crlf_line_endings']
 
 MEM = {'c03inc.gin': "c03.f.z = 'inc'\n"}
 
@@ -230,6 +230,8 @@ def layouts(stmts, tier):
   yield ('base', join([flat(s) for s in stmts]), [])
   yield ('no_trailing_newline', join([flat(s) for s in stmts], False), ['no_trailing_newline'])
   yield ('all_indented', join([flat(s, indent='  ') for s in stmts]), ['indented_flat'])
+  yield ('crlf', join([flat(s) for s in stmts]).replace('\n', '\r\n'), ['crlf_line_endings'])
+  yield ('crlf_cont', join([flat(s, cont='after_eq') for s in stmts]).replace('\n', '\r\n'), ['crlf_line_endings'])
   if n > 1:
     yield ('first_indented', join([flat(s, indent='   ' if i == 0 else '') for i, s in enumerate(stmts)]),
            ['indented_flat'])
@@ -262,6 +264,8 @@ def layouts(stmts, tier):
         if sub_end < len(stmts):
           tags.append('block_then_flat')
         yield ('block[%d:%d]:%s' % (a, sub_end, bn), join(parts), tags)
+        if bn in ('i2', 'tab', 'blank_inside'):
+          yield ('block[%d:%d]:%s,crlf' % (a, sub_end, bn), join(parts).replace('\n', '\r\n'), tags + ['crlf_line_endings'])
         if sub_end == len(stmts):
           yield ('block[%d:%d]:%s,nonl' % (a, sub_end, bn), join(parts, False), tags + ['no_trailing_newline'])
   if len(rs) >= 2:
